@@ -93,6 +93,9 @@ func runScenario(idx int, sc *Scenario, first int) {
 		if wantHooks {
 			ctx.emitLine(hooksLine())
 		}
+		if rl := regLine(); rl != "" {
+			ctx.emitLine(rl)
+		}
 		stepStart.Store(0)
 		emit(fmt.Sprintf(`{"ev":"StepEnd","scen":%d,"step":%d}`, idx, k))
 	}
